@@ -92,7 +92,7 @@ if os.path.exists(mp):
             matrix[a] = b.split()
 for name in sorted(os.listdir(V)):
     d = os.path.join(V, name)
-    if not os.path.isdir(d):
+    if not os.path.isdir(d) or not name.startswith("C"):
         continue
     ver = open(os.path.join(d, ".verify")).read().split() if os.path.exists(os.path.join(d, ".verify")) else ["?", "?", "?"]
     notes = open(os.path.join(d, "notes.md")).read() if os.path.exists(os.path.join(d, "notes.md")) else ""
@@ -109,4 +109,4 @@ for name in sorted(os.listdir(V)):
         "files": sorted(f for f in os.listdir(d) if not f.startswith(".") and f != "meta.json"),
     }
     json.dump(meta, open(os.path.join(d, "meta.json"), "w"), indent=1)
-print("meta.json written for", len([n for n in os.listdir(V) if os.path.isdir(os.path.join(V, n))]), "seeds")
+print("meta.json written for", len([n for n in os.listdir(V) if n.startswith("C") and os.path.isdir(os.path.join(V, n))]), "seeds")
